@@ -236,13 +236,17 @@ def _mk(values, dims, unit, dtype):
     return sc.array(dims=dims, values=values, unit=unit, dtype=dtype)
 
 
-def gen_case(rng, ctx, kernel=None):
+def gen_case(rng, ctx, kernel=None, force=None):
     """One direct kernel call: dict(kernel, kwargs, signature, trivial)."""
     kernel = kernel or list(OPERANDS)[rng.integers(0, len(OPERANDS))]
     names = OPERANDS[kernel]
     slice_of_binned = None
     shape_cls = SHAPES[rng.integers(0, len(SHAPES))]
     npix, nt = int(rng.integers(1, 7)), int(rng.integers(1, 40))
+    if force:
+        # deterministic part of every shard: each kernel sees binned data that is a slice of a larger binned
+        # variable, and binned data with nearly uniform per-pixel geometry
+        shape_cls, npix = 'binned', int(rng.integers(3, 7))
     data_name = names[0]
     r = rng.random()
     cls = 'float32' if r < 0.3 else ('int64' if r < 0.4 else 'float64')
@@ -320,7 +324,7 @@ def gen_case(rng, ctx, kernel=None):
                 s = None
             else:
                 s = _draw_si(rng, n_el)
-            if s is not None and not is_data and n_el > 1 and rng.random() < 0.2:
+            if s is not None and not is_data and n_el > 1 and (rng.random() < 0.2 or force == 'uniform'):
                 # a compact detector: per-pixel values that agree to 1e-9..1e-6 relative but are not equal
                 s = s[0] * (1 + 10.0 ** rng.uniform(-9, -6) * rng.uniform(0, 1, size=n_el))
                 ctx.hit('nearly uniform per-pixel geometry')
@@ -346,7 +350,7 @@ def gen_case(rng, ctx, kernel=None):
             elif dt == 'float32':
                 ev = ev.astype(np.float32)
             var = ops.make_binned(ev, sizes, ['pixel'], (npix,), unit, dtype=dt)
-            if npix >= 3 and rng.random() < 0.3:
+            if npix >= 3 and (rng.random() < 0.3 or force == 'slice'):
                 # a slice of a larger binned variable: begin/end no longer span the event buffer
                 lo_ = int(rng.integers(0, npix - 1))
                 hi_ = int(rng.integers(lo_ + 1, npix + 1))
@@ -528,7 +532,11 @@ def run(shard, ctx):
         # every kernel first, then random
         kernels = list(OPERANDS)
         for i in range(shard['calls']):
-            case = gen_case(rng, ctx, kernels[i % len(kernels)] if i < 3 * len(kernels) else None)
+            nk = len(kernels)
+            if i < 2 * nk:
+                case = gen_case(rng, ctx, kernels[i % nk], force='slice' if i < nk else 'uniform')
+            else:
+                case = gen_case(rng, ctx, kernels[i % nk] if i < 4 * nk else None)
             before = ctx.n_violations
             try:
                 getattr(K, case['kernel'])(**case['kw'])
